@@ -1,26 +1,27 @@
 #!/bin/bash
 # tools/try_mutant.sh <patch.diff> <demo.py|-> <check ids...>
-# Applies a seeded change to /repo's working tree, runs the demonstration, the repository suite (without the
-# 900 s directory-name fixture of tests/test_architecture.py, which fails on every checkout of this sandbox)
-# and the named checks, then restores /repo.  Never commits anything.
+# Applies a seeded change in a scratch git worktree of /repo (outside /repo and /verif; /repo's working tree is never
+# touched), runs the demonstration, the repository suite (without the 900 s directory-name fixture of
+# tests/test_architecture.py) and the named checks against that worktree (PYTHONPATH), then removes the worktree.
 set -u
 patch="$1"; demo="$2"; shift 2
+WT=/tmp/verif-try-wt-$$
 cd /verif
-if [ -n "$(git -C /repo status --porcelain)" ]; then echo "/repo not clean"; exit 2; fi
-trap 'git -C /repo checkout -- . ; git -C /repo clean -fdq src' EXIT
+trap 'git -C /repo worktree remove --force $WT >/dev/null 2>&1; git -C /repo worktree prune' EXIT
+git -C /repo worktree add --detach $WT HEAD >/dev/null 2>&1 || { echo "cannot create worktree"; exit 2; }
 if [ "$demo" != "-" ]; then
-  echo "== demo on clean tree"; PYTHONPATH=/repo/src /venv/bin/python "$demo" >/tmp/demo.clean.out 2>&1; echo "exit=$? $(tail -1 /tmp/demo.clean.out)"
+  echo "== demo on clean tree"; (cd /tmp && PYTHONPATH=$WT/src /venv/bin/python "$demo" >/tmp/demo.clean.out 2>&1; echo "exit=$? $(tail -1 /tmp/demo.clean.out)")
 fi
-git -C /repo apply "$patch" || { echo "patch does not apply"; exit 2; }
+git -C $WT apply "$patch" 2>/dev/null || git -C $WT apply --3way "$patch" || { echo "patch does not apply"; exit 2; }
 if [ "$demo" != "-" ]; then
-  echo "== demo on mutated tree"; PYTHONPATH=/repo/src /venv/bin/python "$demo" >/tmp/demo.mut.out 2>&1; echo "exit=$? $(tail -2 /tmp/demo.mut.out | tr '\n' ' ')"
+  echo "== demo on changed tree"; (cd /tmp && PYTHONPATH=$WT/src /venv/bin/python "$demo" >/tmp/demo.mut.out 2>&1; echo "exit=$? $(tail -2 /tmp/demo.mut.out | tr '\n' ' ')")
 fi
 if [ "${SKIP_SUITE:-0}" != "1" ]; then
   echo "== repository suite (minus tests/test_architecture.py)"
-  (cd /repo && /venv/bin/python -m pytest -q -p no:cacheprovider --timeout=900 --continue-on-collection-errors --deselect tests/test_architecture.py 2>&1 | tail -1)
+  (cd $WT && PYTHONPATH=$WT/src /venv/bin/python -m pytest -q -p no:cacheprovider --timeout=900 --continue-on-collection-errors --deselect tests/test_architecture.py 2>&1 | tail -1)
 fi
 for c in "$@"; do
   echo "== ./check $c --tier ${TIER:-quick}"
-  ./check "$c" --tier "${TIER:-quick}" 2>&1 | grep -E "^(VIOLATION|OK|KNOWN-FINDING|MACHINERY|  clause)" | cut -c1-400
+  PYTHONPATH=$WT/src ./check "$c" --tier "${TIER:-quick}" 2>&1 | grep -E "^(VIOLATION|OK|KNOWN-FINDING|MACHINERY|  clause)" | cut -c1-400
   echo "exit=${PIPESTATUS[0]}"
 done
